@@ -296,6 +296,16 @@ fn run_history(vseed: u64, hi: usize, rep: &mut Report) {
                     }
                 }
             }
+            // now and then a transform of an unsupported length first (it panics or returns
+            // garbage: outside the domain, ignored); the valid operations after it must be right
+            if hi % 3 == 0 {
+                let bad = [3usize, 6, 12, 100, 1536, 2048][(hi / 3) % 6];
+                let junk: Vec<(f64, f64)> = (0..bad).map(|i| (i as f64, 0.0)).collect();
+                let j2 = junk.clone();
+                let _ = monitored(move || vh::cifft(&j2));
+                let _ = monitored(move || vh::csplit(&junk));
+                rep.count("histories_starting_with_a_rejected_length", 1);
+            }
             let hist = format!("seed {} history {}: {:?}", vseed, hi, ops);
             for (op, n) in ops {
                 let a: Vec<i64> = (0..n).map(|_| rng.gen_range(-16384i64..=16384)).collect();
